@@ -1,0 +1,85 @@
+//go:build verif
+
+// Contracts for govc (see /verif/DESIGN.md). Comment-only file: with the
+// build tag off it is not part of the build, with it on it adds no code.
+
+package weshnet
+
+//@ # ======================= C13: event listings =======================
+
+//@ pred firstIdx(entries, x, k) = 0 <= k && k < len(entries) && ehash(entries[k]) == x
+//@     && (forall j {entries[j]} :: 0 <= j && j < k ==> ehash(entries[j]) != x)
+//@ pred absentIn(entries, x, n) = forall j {entries[j]} :: 0 <= j && j < n ==> ehash(entries[j]) != x
+//@ pred startAt(entries, since, a) = (since == nil && a == 0) || (since != nil && firstIdx(entries, bytes(since), a))
+//@ pred stopAt(entries, until, b) = (until == nil && b == len(entries) - 1) || (until != nil && firstIdx(entries, bytes(until), b))
+
+//@ func getEntriesInRange
+//@   for C13
+//@   safety
+//@   requires forall i {entries[i]} :: 0 <= i && i < len(entries) ==> entries[i] != nil
+//@   ensures [C13.range.sound] ret1 == nil ==> ret0.base == entries.base
+//@     && startAt(entries, since, ret0.off - entries.off)
+//@     && stopAt(entries, until, ret0.off - entries.off + len(ret0) - 1)
+//@     && (ret0.off - entries.off <= ret0.off - entries.off + len(ret0) - 1 || len(entries) == 0)
+//@   ensures [C13.range.complete] forall a, b :: startAt(entries, since, a) && stopAt(entries, until, b) && (a <= b || len(entries) == 0) ==> ret1 == nil
+//@   ensures [C13.range.errcode] ret1 != nil ==> ecode(ret1) == 101 && ret0 == nil
+//@   loop 0 invariant -1 <= rangeindex && (rangeindex < len(entries) || len(entries) == 0 && rangeindex == -1)
+//@   loop 0 invariant since == nil ==> startFound && startIndex == 0
+//@   loop 0 invariant since != nil && startFound ==> firstIdx(entries, bytes(since), startIndex) && startIndex <= rangeindex
+//@   loop 0 invariant since != nil && !startFound ==> absentIn(entries, bytes(since), rangeindex + 1)
+//@   loop 0 invariant until == nil ==> stopFound && stopIndex == len(entries) - 1
+//@   loop 0 invariant until != nil && stopFound ==> firstIdx(entries, bytes(until), stopIndex) && stopIndex <= rangeindex
+//@   loop 0 invariant until != nil && !stopFound ==> absentIn(entries, bytes(until), rangeindex + 1)
+//@   loop 0 decreases len(entries) - rangeindex
+
+//@ # ghost call trace of the callback handed to iterateOverEntries
+//@ ghost ctrace() (Array Int Ref)
+//@ ghost ncalls() Int
+//@ extern tracecall(x)
+//@   modifies ctrace, ncalls
+//@   ensures ncalls == old(ncalls) + 1 && ctrace == store(old(ctrace), old(ncalls), x)
+
+//@ func iterateOverEntries
+//@   for C13
+//@   safety
+//@   calls f as tracecall
+//@   requires f != nil
+//@   modifies ctrace, ncalls
+//@   ensures [C13.iterate.count] ncalls == old(ncalls) + len(entries)
+//@   ensures [C13.iterate.forward] !reverse ==> (forall i {ctrace[old(ncalls) + i]} :: 0 <= i && i < len(entries) ==> ctrace[old(ncalls) + i] == entries[i])
+//@   ensures [C13.iterate.reverse] reverse ==> (forall i {ctrace[old(ncalls) + i]} :: 0 <= i && i < len(entries) ==> ctrace[old(ncalls) + i] == entries[len(entries) - 1 - i])
+//@   ensures [C13.iterate.frame] forall k {ctrace[k]} :: k < old(ncalls) ==> ctrace[k] == old(ctrace[k])
+//@   loop 0 invariant -1 <= i && i < len(entries) && ncalls == old(ncalls) + len(entries) - 1 - i
+//@   loop 0 invariant forall k {ctrace[k]} :: k < old(ncalls) ==> ctrace[k] == old(ctrace[k])
+//@   loop 0 invariant forall j {ctrace[old(ncalls) + j]} :: 0 <= j && j < len(entries) - 1 - i ==> ctrace[old(ncalls) + j] == entries[len(entries) - 1 - j]
+//@   loop 0 decreases i + 1
+//@   loop 1 invariant -1 <= rangeindex && (rangeindex < len(entries) || len(entries) == 0 && rangeindex == -1) && ncalls == old(ncalls) + rangeindex + 1
+//@   loop 1 invariant forall k {ctrace[k]} :: k < old(ncalls) ==> ctrace[k] == old(ctrace[k])
+//@   loop 1 invariant forall j {ctrace[old(ncalls) + j]} :: 0 <= j && j <= rangeindex ==> ctrace[old(ncalls) + j] == entries[j]
+//@   loop 1 decreases len(entries) - rangeindex
+
+//@ func checkParametersConsistency
+//@   for C13
+//@   safety
+//@   ensures [C13.params] ret0 == nil <==> !(sinceID != nil && sinceNow) && !(untilID != nil && untilNow) && !(sinceNow && untilNow) && !(untilID == nil && !untilNow && reverseOrder)
+//@   ensures [C13.params.code] ret0 != nil ==> ecode(ret0) == 100
+
+//@ # order source of the listings: the sequence handed to getEntriesInRange must be the
+//@ # deterministic log order of the entry set (oldest first), not an arrival-dependent order
+//@ spec func oplog(store Ref) Ref
+//@ extern (*berty.tech/go-orbit-db/stores/basestore.BaseStore).OpLog(b) (l)
+//@   ensures l == oplog(b) && l != nil
+
+//@ func (*MetadataStore).ListEvents
+//@   for C13
+//@   requires m != nil
+//@   at getEntriesInRange requires [C13.list.metadata.order] len(entries) == loglen(oplog(addr(m.BaseStore)))
+//@     && (forall i {entries[i]} :: 0 <= i && i < len(entries) ==> entries[i] == logat(oplog(addr(m.BaseStore)), i))
+//@   ensures ret1 != nil ==> ret0 == nil
+
+//@ func (*MessageStore).ListEvents
+//@   for C13
+//@   requires m != nil
+//@   at getEntriesInRange requires [C13.list.message.order] len(entries) == loglen(oplog(addr(m.BaseStore)))
+//@     && (forall i {entries[i]} :: 0 <= i && i < len(entries) ==> entries[i] == logat(oplog(addr(m.BaseStore)), i))
+//@   ensures ret1 != nil ==> ret0 == nil
